@@ -510,6 +510,12 @@ pub fn builtin_binary_get<E: Effect>(
                         ));
                     }
 
+                    if byte_offset as u64 >= binary_data.len() as u64 {
+                        return Err(Error::InvalidArgument(format!(
+                            "Not enough bits: need {} bits starting at byte {} bit {}",
+                            num_bits, byte_offset, bit_offset
+                        )));
+                    }
                     let byte_offset = byte_offset as usize;
                     let bit_offset = bit_offset as usize;
                     let num_bits = num_bits as usize;
@@ -527,12 +533,12 @@ pub fn builtin_binary_get<E: Effect>(
                     }
 
                     // Read all bytes we need
-                    let mut value = 0u64;
+                    let mut value = 0u128;
                     let bytes_to_read = last_byte_needed - byte_offset;
 
                     for i in 0..bytes_to_read {
                         value =
-                            (value << 8) | (binary_data.byte_at(byte_offset + i).unwrap() as u64);
+                            (value << 8) | (binary_data.byte_at(byte_offset + i).unwrap() as u128);
                     }
 
                     // Shift to align our bits to the right
@@ -542,14 +548,10 @@ pub fn builtin_binary_get<E: Effect>(
                     value >>= bits_after;
 
                     // Mask to keep only the bits we want
-                    let mask = if num_bits == 64 {
-                        u64::MAX
-                    } else {
-                        (1u64 << num_bits) - 1
-                    };
+                    let mask = (1u128 << num_bits) - 1;
                     value &= mask;
 
-                    Ok(BuiltinResult::Value(Value::Integer(BigInt::from(value))))
+                    Ok(BuiltinResult::Value(Value::Integer(BigInt::from(value as u64))))
                 }
                 _ => Err(Error::TypeMismatch {
                     expected: "[binary, integer, integer, integer]".to_string(),
@@ -612,6 +614,12 @@ pub fn builtin_binary_set<E: Effect>(
                         ));
                     }
 
+                    if byte_offset as u64 >= binary_data.len() as u64 {
+                        return Err(Error::InvalidArgument(format!(
+                            "Not enough bits: need {} bits starting at byte {} bit {}",
+                            num_bits, byte_offset, bit_offset
+                        )));
+                    }
                     let byte_offset = byte_offset as usize;
                     let bit_offset = bit_offset as usize;
                     let num_bits = num_bits as usize;
@@ -636,15 +644,15 @@ pub fn builtin_binary_set<E: Effect>(
                         (1u64 << num_bits) - 1
                     };
 
-                    let value_i64 = bigint_to_i64(value)?;
-                    if value_i64 < 0 || (value_i64 as u64) > max_value {
-                        return Err(Error::InvalidArgument(format!(
-                            "Value {} does not fit in {} bits",
-                            value, num_bits
-                        )));
-                    }
-
-                    let value_u64 = value_i64 as u64;
+                    let value_u64 = match num_traits::ToPrimitive::to_u64(value) {
+                        Some(v) if v <= max_value => v,
+                        _ => {
+                            return Err(Error::InvalidArgument(format!(
+                                "Value {} does not fit in {} bits",
+                                value, num_bits
+                            )));
+                        }
+                    };
 
                     // Read the bytes we need to modify
                     let bytes_to_modify = last_byte_needed - byte_offset;
@@ -659,20 +667,15 @@ pub fn builtin_binary_set<E: Effect>(
                     let bits_after = bits_in_modified - bit_offset - num_bits;
 
                     // Shift value to correct position
-                    let shifted_value = value_u64 << bits_after;
+                    let shifted_value = (value_u64 as u128) << bits_after;
 
                     // Create mask: all 1s except in our target bits
-                    let mask = if num_bits == 64 {
-                        0
-                    } else {
-                        let target_mask = ((1u64 << num_bits) - 1) << bits_after;
-                        !target_mask
-                    };
+                    let mask = !(((1u128 << num_bits) - 1) << bits_after);
 
                     // Reconstruct the bytes
-                    let mut current_bytes = 0u64;
+                    let mut current_bytes = 0u128;
                     for &byte in &modified_bytes {
-                        current_bytes = (current_bytes << 8) | (byte as u64);
+                        current_bytes = (current_bytes << 8) | (byte as u128);
                     }
 
                     let new_bytes_value = (current_bytes & mask) | shifted_value;
@@ -878,7 +881,12 @@ pub fn builtin_binary_append<E: Effect>(
                     }
 
                     let num_bytes = num_bytes as usize;
-                    let value = bigint_to_i64(value)? as u64;
+                    let value = num_traits::ToPrimitive::to_u64(value).ok_or_else(|| {
+                        Error::InvalidArgument(format!(
+                            "Value {} does not fit in {} bytes",
+                            value, num_bytes
+                        ))
+                    })?;
 
                     // Check if value fits in the specified number of bytes
                     let max_value = if num_bytes == 8 {
